@@ -127,6 +127,9 @@ func (w *accWalker) inline(key string, args []ast.Expr) bool {
 		return false
 	}
 	for _, a := range args {
+		if id, ok := a.(*ast.Ident); ok && w.typ == "watch" && id.Name == "dirErrors" {
+			continue // the map reference handed on to a helper: not an access of the map
+		}
 		w.walk(a)
 	}
 	if w.stack[key] {
@@ -319,6 +322,27 @@ func genAccess(outDir string) {
 	}
 	if len(g.scanners) == 0 {
 		die("pkg/cdi: no function that walks a directory found (scanSpecDirs?)")
+	}
+	// ... and, transitively, the package-level functions that call one of those
+	for changed := true; changed; {
+		changed = false
+		for _, of := range []*ast.File{f, parseFile("pkg/cdi/spec-dirs.go")} {
+			for _, d := range of.Decls {
+				fd, ok := d.(*ast.FuncDecl)
+				if !ok || fd.Body == nil || fd.Recv != nil || g.scanners[fd.Name.Name] {
+					continue
+				}
+				ast.Inspect(fd.Body, func(n ast.Node) bool {
+					if ce, ok := n.(*ast.CallExpr); ok {
+						if id, ok := ce.Fun.(*ast.Ident); ok && g.scanners[id.Name] && !g.scanners[fd.Name.Name] {
+							g.scanners[fd.Name.Name] = true
+							changed = true
+						}
+					}
+					return true
+				})
+			}
+		}
 	}
 	var entries []string
 	for _, d := range f.Decls {
